@@ -41,7 +41,11 @@ def monitor_history(oc, hseed, tier):
         except Exception:  # noqa: BLE001
             continue
         before_msg = str(mo)
-        merge(ro, mo)
+        ro_text_before = str(ro)
+        o_step = merge(ro, mo)
+        if oc.extra.get('pairs') is not None and TJ.parse(ro_text_before) == state:
+            oc.extra['pairs'].append((ro_text_before, text, {'err': o_step['err'], 'warns': o_step['warns'], 'text': str(ro)},
+                                      f'history seed={hseed} step {k} ({cls})'))
         merge(other, mo)                       # the same object into another running order
         merged.append((text, mo, before_msg, cls))
         oc.evaluations += 1
@@ -200,12 +204,48 @@ def targeted(oc):
                 oc.samples.append({'label': f'{cname} then {ename}', 'carrier': ctext[:600], 'edit': etext[:400]})
 
 
+def fresh_process_check(oc, pairs):
+    """The result of a merge depends only on the two contents: the same (running order text, message text)
+    pairs executed in a fresh interpreter, in the opposite order, must give what this long-lived process got."""
+    import os, shutil, subprocess, sys, tempfile
+    from .lean import InfraError, VERIF
+    tmp = tempfile.mkdtemp(prefix='mrm-c13-')
+    try:
+        order = list(reversed(range(len(pairs))))
+        inp, outp = os.path.join(tmp, 'in.json'), os.path.join(tmp, 'out.json')
+        with open(inp, 'w') as f:
+            json.dump([[pairs[i][0], pairs[i][1]] for i in order], f)
+        env = dict(os.environ, PYTHONPATH=VERIF, PYTHONDONTWRITEBYTECODE='1')
+        p = subprocess.run([sys.executable, '-m', 'harness.sub_merge', inp, outp], cwd=VERIF, env=env,
+                           stdout=subprocess.PIPE, stderr=subprocess.STDOUT, text=True, timeout=1200)
+        if p.returncode != 0:
+            raise InfraError('sub-interpreter failed: ' + p.stdout[-1500:])
+        with open(outp) as f:
+            res = json.load(f)['results']
+    finally:
+        shutil.rmtree(tmp, ignore_errors=True)
+    for i, r in zip(order, res):
+        ro_text, msg_text, here, label = pairs[i]
+        oc.evaluations += 1
+        oc.in_domain += 1
+        if r != here:
+            oc.failing.append({'kind': 'alias-fresh-process', 'label': label, 'ro_text': ro_text, 'msg_text': msg_text,
+                               'spec': 'the result of a merge depends only on the content of the running order and of the message: '
+                                       'the same two documents merged in a fresh interpreter give a different result',
+                               'impl': {'this_process': {k: (v[:600] if isinstance(v, str) else v) for k, v in here.items()},
+                                        'fresh_process': {k: (v[:600] if isinstance(v, str) else v) for k, v in r.items()}}})
+    oc.count('fresh-process-pairs', len(pairs))
+
+
 def run_c13(tier, seed):
     oc = Outcome('C13')
     targeted(oc)
+    oc.extra['pairs'] = []
     n_hist = 80 if tier == 'quick' else 6000
     for k in range(n_hist):
         monitor_history(oc, seed * 9973 + 37 * k, tier)
+    pairs = oc.extra.pop('pairs')
+    fresh_process_check(oc, pairs if tier == 'quick' else pairs[:20000])
     oc.extra['monitor'] = ('after every step: id()-sets of the running order, of a second running order fed the same message '
                            'objects, and of every message object merged so far are pairwise disjoint and duplicate-free; '
                            'str(msg) unchanged; re-merging an earlier object == merging a fresh parse')
@@ -228,6 +268,10 @@ def replay(pid, fl):
         o_re, o_fr = merge(ro2, x), merge(fresh, impl.load(fl['carrier']))
         bad = bad or (o_re['err'], o_re['warns'], str(ro2)) != (o_fr['err'], o_fr['warns'], str(fresh))
         bad = bad or bool(set(ids_of(ro.xml)) & set(ids_of(ro2.xml)))
+    elif fl['kind'] == 'alias-fresh-process':
+        print('a difference between a long-lived and a fresh interpreter: re-running the C13 check (it regenerates the same histories)')
+        from . import registry
+        return registry.run_check(pid, 'quick', 0)
     elif fl.get('collection'):
         oc2 = Outcome(pid)
         collection_reuse(oc2, fl['history'], 'replay')
